@@ -26,6 +26,11 @@ type byzStrategy struct {
 	accuse     map[int]bool   // victim -> false accusation
 	apology    map[int]string // accuser -> correct | wrong | none
 	late       map[string]bool // message kind -> sent after its phase
+	// padApology: the apology message carries one more entry, for a keyper that never accused,
+	// with an evaluation outside the scalar field (the entries in front stay what they are)
+	padApology bool
+	// offset: message kind -> blocks into its phase at which it is sent (0 = first block)
+	offset map[string]int64
 }
 
 type byzKeyper struct {
@@ -59,12 +64,17 @@ func newByzKeyper(w *worldB, idx int, c *simkit.Chooser, victims []int) *byzKeyp
 	for _, k := range []string{"commitment", "eval", "accusation", "apology"} {
 		s.late[k] = c.Chance(150, "byz-late")
 	}
+	s.padApology = c.Chance(400, "byz-padded-apology")
+	s.offset = map[string]int64{}
+	for _, k := range []string{"commitment", "eval", "accusation", "apology"} {
+		s.offset[k] = int64(c.Intn(3, "byz-blocks-into-phase")) // phases are at least 3 blocks long
+	}
 	b.strat = s
 	return b
 }
 
 func (b *byzKeyper) describe() string {
-	return fmt.Sprintf("byz k%d commitment=%s eval=%v accuse=%v apology=%v late=%v", b.idx, b.strat.commitment, b.strat.eval, b.strat.accuse, b.strat.apology, b.strat.late)
+	return fmt.Sprintf("byz k%d commitment=%s eval=%v accuse=%v apology=%v late=%v padded-apology=%t", b.idx, b.strat.commitment, b.strat.eval, b.strat.accuse, b.strat.apology, b.strat.late, b.strat.padApology)
 }
 
 func (b *byzKeyper) submit(msg *shmsg.Message, what string) {
@@ -141,7 +151,7 @@ func (b *byzKeyper) onBlocks() {
 		if b.sent[kind] {
 			return false
 		}
-		at := phaseStart[kind]
+		at := phaseStart[kind] + b.strat.offset[kind]
 		if b.strat.late[kind] {
 			at += L // after its phase
 		}
@@ -229,6 +239,16 @@ func (b *byzKeyper) onBlocks() {
 			}
 			accusers = append(accusers, b.members[i])
 			evals = append(evals, ev)
+		}
+		if len(accusers) > 0 && b.strat.padApology {
+			for i := range b.members {
+				if i != b.idx && !b.accusers[i] {
+					accusers = append(accusers, b.members[i])
+					evals = append(evals, new(big.Int).Lsh(big.NewInt(1), 255)) // >= the field order
+					b.w.r.Probe("byz-padded-apology")
+					break
+				}
+			}
 		}
 		if len(accusers) > 0 {
 			b.submit(shmsg.NewApology(b.eon, accusers, evals), fmt.Sprintf("apology to %d accusers", len(accusers)))
